@@ -314,3 +314,36 @@ def printing_does_not_modify(env, cfg, ck):
     ck.unchanged('repr', snap)
     ck.call_any(str, x)
     ck.unchanged('str', snap)
+
+
+@contract('C17', targets=['spatialmath.quaternion.UnitQuaternion.interp', 'spatialmath.super_pose.SMPose.interp'], domain=False)
+def interpolation_frames(env, cfg, ck):
+    """interp leaves the receiver and the destination unchanged, in every form (one/two objects, shortest on/off),
+    in particular for a pair in opposite hemispheres, where the start quaternion is reversed internally"""
+    import math
+    np, sm = env.np, env.sm
+    a0, a1 = 0.3, 2 * math.pi - 0.4
+    pairs = [(np.array([math.cos(a0 / 2), math.sin(a0 / 2), 0, 0]), np.array([math.cos(a1 / 2), 0, 0, math.sin(a1 / 2)])),      # negative inner product
+             (np.array([math.cos(a0 / 2), math.sin(a0 / 2), 0, 0]), np.array([math.cos(0.2), 0, math.sin(0.2), 0]))]             # positive inner product
+    for k, (p, q) in enumerate(pairs):
+        for shortest in (True, False):
+            for s in (0, 0.5, 1):
+                U, V = sm.UnitQuaternion(p, norm=False, check=False), sm.UnitQuaternion(q, norm=False, check=False)
+                snap = ck.snapshot(U, V)
+                ck.call_any(U.interp, s, V, shortest=shortest)
+                ck.unchanged('two-quaternion:%d:shortest=%s:s=%s' % (k, shortest, s), snap)
+                snap = ck.snapshot(V)
+                ck.call_any(V.interp, s, shortest=shortest)
+                ck.unchanged('one-quaternion:%d:shortest=%s:s=%s' % (k, shortest, s), snap)
+    X, Y = sm.SE3(1, 2, 3) * sm.SE3.Rx(0.3), sm.SE3(-1, 0.5, 2) * sm.SE3.Rz(2.8)
+    for s in (0, 0.4, 1):
+        snap = ck.snapshot(X, Y)
+        ck.call_any(X.interp, s, Y)
+        ck.call_any(Y.interp, s)
+        ck.unchanged('SE3:s=%s' % s, snap)
+    P, Q2 = sm.SE2(1, 2, 0.3), sm.SE2(-1, 0.5, 2.8)
+    for s in (0, 0.4, 1):
+        snap = ck.snapshot(P, Q2)
+        ck.call_any(P.interp, s, Q2)
+        ck.call_any(Q2.interp, s)
+        ck.unchanged('SE2:s=%s' % s, snap)
